@@ -109,7 +109,14 @@ def owedOrder (s : State) : Int :=
 def owedNode (s : State) : Int :=
   sumInt (s.pledges.map (fun p => p.totalStoragePledged + p.totalShardPledged)) - sumInt (s.debts.map (·.2))
 
+/-- what the node escrow owes by the per-shard records: capacity collateral of every provider plus
+    the collateral of every live completed shard, less collateral still owed by providers -/
+def owedNodeByShards (s : State) : Int :=
+  sumInt (s.pledges.map (·.totalStoragePledged)) +
+  sumInt ((s.shards.filter (fun sh => sh.status = ShardCompleted)).map (·.pledge)) - sumInt (s.debts.map (·.2))
+
 def solventOrder (e : Env) (s : State) : Bool := s.bal e.modOrder ≥ owedOrder s
+def solventNodeByShards (e : Env) (s : State) : Bool := s.bal e.modNode ≥ owedNodeByShards s
 def solventNode (e : Env) (s : State) : Bool := s.bal e.modNode ≥ owedNode s
 
 /-! ### C11 retention -/
